@@ -83,6 +83,8 @@ var errNoSuchKey = errors.New("verif vault: no key with that name can do this")
 // a fixed IV, RSA-OAEP-256 with a fixed key pair).
 type vault struct {
 	identity bool
+	retain   bool // cache unwrapped keys and hand out the cached slice itself
+	cache    map[string][]byte
 	scrub    bool // overwrite the plaintext key handed to the wrap callback after wrapping it
 	encName  string
 	decName  string
@@ -132,6 +134,23 @@ func (v *vault) wrapKey(fk []byte, alg string) ([]byte, error) {
 }
 
 func (v *vault) unwrapKey(wfk []byte, alg string) ([]byte, error) {
+	if !v.retain {
+		return v.unwrapKeyFresh(wfk, alg)
+	}
+	if k, ok := v.cache[string(wfk)+"|"+alg]; ok {
+		return k, nil
+	}
+	k, err := v.unwrapKeyFresh(wfk, alg)
+	if err == nil {
+		if v.cache == nil {
+			v.cache = map[string][]byte{}
+		}
+		v.cache[string(wfk)+"|"+alg] = k
+	}
+	return k, err
+}
+
+func (v *vault) unwrapKeyFresh(wfk []byte, alg string) ([]byte, error) {
 	if v.wrapAlg != "" && alg != v.wrapAlg {
 		return nil, fmt.Errorf("verif vault: asked to unwrap under %q a key that was wrapped under %q", alg, v.wrapAlg)
 	}
